@@ -20,7 +20,7 @@ CLASSIFY = None
 
 
 def streams(ctx):
-    n = 8 if ctx.thorough else 1
+    n = 16 if ctx.thorough else 1
     return [("scripts", "script", 500 * n), ("same-named-contigs", "dupnames", 300 * n), ("tight-scripts", "tightscript", 100 * n), ("tagged", "tagged", 300 * n), ("perturbed", "perturbed", 200 * n), ("arbitrary-baits", "baits", 150 * n), ("tagged-slivers", "slivers", 200 * n)]
 
 
